@@ -23,12 +23,26 @@ pub struct Case {
     pub ps: bool,
     pub pse: bool,
     pub pager: bool,
+    /// 0 = default whitespace skipping, 1..4 = Layout rule templates
+    #[serde(default)]
+    pub mode: u8,
+}
+
+fn kind_of(mode: u8) -> Option<LayoutKind> {
+    match mode {
+        0 => None,
+        1 => Some(LayoutKind::Ws),
+        2 => Some(LayoutKind::WsLine),
+        3 => Some(LayoutKind::WsLineBlock),
+        _ => Some(LayoutKind::WsLineBlockPlus),
+    }
 }
 
 pub fn spec_of(c: &Case) -> GrammarSpec {
     let mut s = c.g.spec.clone();
     let mut cur = Cursor::new(&c.meta_tape);
     gen::sprinkle_meta(&mut s, &mut cur, c.term_assoc);
+    s.layout = kind_of(c.mode);
     s
 }
 
@@ -36,6 +50,9 @@ fn render(c: &Case, bnf: &Bnf, ii: usize) -> (gen::Rendered, Vec<usize>) {
     let tape = &c.g.tapes[ii];
     let toks = gen::tokens_for(bnf, tape, 10);
     let mut cur = Cursor::new(&tape.tape);
+    if c.mode > 0 {
+        return (gen::render_with_layout(&c.g.spec.terms, &toks, kind_of(c.mode), ii % 3 == 2, &mut cur), toks);
+    }
     let style = if ii % 2 == 0 { LayoutStyle::Ascii } else { LayoutStyle::Minimal };
     (gen::render_tokens(&c.g.spec.terms, &toks, style, &mut cur), toks)
 }
@@ -90,8 +107,9 @@ impl Prop for C02 {
             any::<bool>(),
             any::<bool>(),
             any::<bool>(),
+            prop_oneof![3 => Just(0u8), 1 => Just(1u8), 1 => Just(2u8), 1 => Just(3u8), 1 => Just(4u8)],
         )
-            .prop_map(|(g, meta_tape, term_assoc, ps, pse, pager)| Case { g, meta_tape, term_assoc, ps, pse, pager })
+            .prop_map(|(g, meta_tape, term_assoc, ps, pse, pager, mode)| Case { g, meta_tape, term_assoc, ps, pse, pager, mode })
             .boxed()
     }
     fn cases(&self, tier: Tier) -> u32 {
@@ -103,7 +121,7 @@ impl Prop for C02 {
     fn rule(&self) -> String {
         "case = generated (mostly conflicting) BNF grammar with random priorities / associativity / \
          nops / nopse on productions, rules and terminals x prefer_shifts x prefer_shifts_over_empty \
-         x {LALR, LALR_PAGER}, LR algorithm; grammars whose table still has conflicts are discarded \
+         x {LALR, LALR_PAGER} x {default whitespace skipping, four Layout-rule templates (whitespace / line comments / nested block comments / non-empty variant)}, LR algorithm; grammars whose table still has conflicts are discarded \
          (the compiler rejects them); inputs = sentences, mutations, random token strings. For every \
          Ok(tree) with partial_parse off and on: root is the start rule; every interior node is an \
          alternative of the spec whose symbols equal the child symbols exactly; leaves (kind, text) \
@@ -152,6 +170,7 @@ impl Prop for C02 {
             st.discard("conflicts-remain(rejected-by-compiler)");
             return Outcome::Pass;
         }
+        st.class(&format!("layout-mode-{}", case.mode));
         let resolved = match compile(&spec.without_meta().render(), &Cfg::raw(tt)) {
             Ok(raw) => has_conflicts(&raw),
             _ => false,
